@@ -15,8 +15,10 @@
 #include "vsched.hpp"
 
 namespace vs {
-struct VThrow: std::exception {
-    const char* what() const noexcept override { return "vthrow"; }
+// deliberately NOT derived from std::exception: user code may throw any type, and library code that filters with
+// catch (const std::exception&) instead of catch (...) (seeded C04-12) must not get away with it
+struct VThrow {
+    const char* what() const noexcept { return "vthrow"; }
 };
 struct Plan {
     std::vector<long> throw_at;  // indices (0-based, global per case) of user-code invocations that throw
